@@ -1072,6 +1072,8 @@ class UmEngine:
 					owners = ["C05", "C03", "C12"] if sock else ["C03", "C12", "C02", "C10", "C18"]
 					if hostile:
 						owners = ["C14"] + owners
+					if kw["exc"] == "Hang":  # an endless loop: whatever the property, it cannot hold any more
+						owners = ["C02", "C03", "C05", "C10", "C12", "C14", "C18"]
 					viols.insert(0, {"clause": "thread-death.%s" % ("socket" if sock else "clock"),
 						"detail": {"exc": kw["exc"], "msg": kw["msg"], "where": kw["where"]},
 						"signature": "thread-death/%s/%s" % (kw["exc"], kw["where"][-1] if kw["where"] else "?"),
